@@ -98,6 +98,20 @@ DEFS = {
         "components": {"real": ["pyphysim.ia.iabase.IASolverBaseClass", "ClosedFormIASolver, AlternatingMinIASolver, MinLeakageIASolver, MaxSinrIASolver, MMSEIASolver", "MultiUserChannelMatrix"],
                        "fake": ["operation scheduler", "RandomState seeds"], "stub_or_not_run": ["GreedStreamIASolver, BruteForceStreamIASolver (not anchored by the property)"]},
     },
+    "C14": {
+        "module": "worlds.c14", "level": "exploration",
+        "stages": {
+            "quick": [{"name": "request/skip histories", "n": 20000, "wall": 50, "opts": {"chunk": 50}}],
+            "thorough": [{"name": "request/skip histories", "n": 2000000, "wall": 840, "opts": {"chunk": 100}}],
+        },
+        "rule": ("plan = generator configuration (Fd 0..500 Hz, Ts 1e-9..1 s, L 1-16 rays, shape None/int/tuple, RandomState seed) and 1-40 operations from generate(n) (n 1..1e5, also None), "
+                 "skip(n) (clock jumps, cumulative positions to ~1e10 samples) and get_samples(); biased to small requests at large positions. The only 'fault' is the clock jump itself. "
+                 "distinct = distinct event-log digests; non-trivial = at least one request and two operations"),
+        "assumptions": ["the reference model evaluates h(k*Ts) with an integer sample counter and the generator's own phases (_phi_l/_psi_l, named by the property as 'the generator's fixed random phases')",
+                        "tolerance sqrt(L)*2*pi*Fd*Ts*0.01 + 1e-9: the implementation's legitimate timing deviations (step factor 1.0000000001, float accumulation bounded by the plan generator) stay below 1e-3 sample, a one-sample slip is ~100x above",
+                        "#operations x position <= 4.5e12 so that legitimate float accumulation of the generator's clock stays below 1e-3 sample"],
+        "components": {"real": ["pyphysim.channels.fading_generators.JakesSampleGenerator"], "fake": ["request/skip scheduler (the generator's clock is jumped with skip)", "RandomState seed"], "stub_or_not_run": []},
+    },
 }
 
 
